@@ -144,6 +144,18 @@ def gen_cases(ctx):
     for c in cases:
         c[2]['dh'] = 'g' if c[0] in pick else 't'
         c[1] = hs_line(c[0], c[2])
+    # forged first packets: ephemeral value = a small-order X25519 input (or an encoding that is one only without the
+    # bit-255 masking), block sealed by the sender under the all-zero key.  Not a handshake of any configured client:
+    # only the two server-side models (this one and Model/Hello.v of C07) are compared with the real parser + decryptor
+    from props.c09 import FORGE_POINTS
+    fpts = FORGE_POINTS if not q else [pt for pt in FORGE_POINTS if pt[0] in ('zero', 'one', 'order8a', 'order8b', 'p-1|bit255', 'p', 'p+1+p')]
+    k = 0
+    for tr, br in (('direct', 'firefox'), ('cdn', 'chrome')):
+        for pn, u in fpts:
+            cid = 'f%d' % k
+            cases.append([cid, '%s FP %s %s %s %s f%d-%d' % (cid, tr, br, u.hex(), '00' * 32, ctx.seed, k),
+                          dict(kind='F', transport=tr, browser=br, point=pn, u=u.hex(), dh='g', name='www.example.com')])
+            k += 1
     # decryptClientInfo on crafted plaintexts: window edges to the nanosecond, wraps, flag/method/reserved variants
     tol = consts()['server_timestampTolerance_ns']
     nd = 400 if q else 20000
@@ -201,6 +213,10 @@ def model_line(cid, c, io):
     if c['kind'] == 'D':
         return '%s D %s %s' % (cid, c['pt'], zhex(c['now']))
     g = kv(io)
+    if c['kind'] == 'F':
+        if 'fp' not in g:
+            return None
+        return '%s FP %s %s %s %s' % (cid, g['tr'], g['spv'], zhex(int(g['snow'])), g['fp'])
     if 'fp' not in g:
         return None
     tr = g['tr']
@@ -282,6 +298,12 @@ def compare(c, g, mo):
     m = kv(mo)
     if c['kind'] == 'D':
         return [] if m.get('S') == g.get('S') else ['unpack: model %s implementation %s' % (m.get('S'), g.get('S'))]
+    if c['kind'] == 'F':
+        d = [] if m.get('S') == g.get('S') else ['server_process on a forged first packet (ephemeral value %s = %s, block sealed under the all-zero key): model %s implementation %s'
+                                                 % (c['point'], c['u'], m.get('S'), g.get('S'))]
+        if (m.get('S') == 'R:dh') != (g.get('x25519err') == '1'):
+            d.append('X25519 on %s: Gallina ladder %s, Go error=%s' % (c['point'], m.get('S'), g.get('x25519err')))
+        return d
     d = []
     if m.get('S') != g.get('S'):
         d.append('server_process: model %s implementation %s' % (m.get('S'), g.get('S')))
@@ -393,6 +415,8 @@ def correspondence(ctx, verdict, pr):
             continue
         if c['kind'] == 'D':
             kinds.append('D/' + g.get('S', '?')[:8].split(':')[0] + ('/edge' if abs(abs(c['delta']) - 180 * 10**9) <= 2 * 10**9 else ''))
+        elif c['kind'] == 'F':
+            kinds.append('F/%s/%s' % (c['transport'], g.get('S', '?')))
         else:
             kinds.append('%s/%s/%s/%s' % (c['kind'], c['transport'], c['browser'] if c['transport'] == 'direct' else '-', c['dh']))
             if c['kind'] == 'H' and g.get('ok') == '1':
@@ -433,7 +457,8 @@ def correspondence(ctx, verdict, pr):
         rule='pairwise cover of {direct x 3 browser signatures, cdn} x 5 encryption-method names x sid {0,1,2^32-1,random} x flag x 6 server names '
              '(incl. random) x clock offsets {-179 s, 0, +179 s, random inside} x UIDs x method names (1..12 bytes), plus out-of-domain handshakes '
              '(offsets at and beyond +-180 s, 13-byte / NUL-edged names, UIDs of 8/20/48/60 bytes) and decryptClientInfo on crafted plaintexts (window '
-             'edges to the nanosecond, int64 wraps, flag/reserved variants). distinct_nontrivial = distinct in-domain configurations whose real handshake completed',
+             'edges to the nanosecond, int64 wraps, flag/reserved variants), and forged first packets whose ephemeral value is a small-order X25519 '
+             'input with the block sealed under the all-zero key, both transports (server side only: model and code must both reject at the key agreement). distinct_nontrivial = distinct in-domain configurations whose real handshake completed',
         samples=[c[1][:300] for c in (cases[ncorpus], cases[ncorpus + nh // 2], cases[-1])],
         traces_validated_against_impl=len(impl), mismatches=len(mism), oracle_failures=orc_fail,
         gallina_x25519_handshakes=sum(1 for c in cases if c[2].get('dh') == 'g'),
